@@ -9,6 +9,15 @@ package http3
 // requestFromHeaders + decodeTrailers, resp. RequestStream.ReadResponse + body Read).
 // Oracle: the parser accepts, and what it hands to net/http equals the fields the message has
 // (computed by the model from the message, never from the writer's output).
+//
+// Content-Length: both lattices let the message itself carry a Content-Length field (set by the
+// handler on the ResponseWriter, resp. put into http.Request.Header) over an alphabet of
+// spellings around "1*DIGIT, representable" (c19CLSpellings), combined with body lengths 0 / 5 /
+// 10. net/http accepts every one of these messages, so all of them are judged: a well-formed
+// value must come back as it is; a malformed one may be left out by the writer (the statement is
+// silent on that), but whatever section the writer does emit must be accepted by the parser of
+// this package and must satisfy the statement's predicate. (The request writer ignores
+// Header["Content-Length"] in favour of Request.ContentLength, as net/http's Transport does.)
 
 import (
 	"bytes"
@@ -63,8 +72,8 @@ var c19ReqHdrAtoms = []c19HdrAtom{
 	{ID: "te-gzip", Key: "Te", Vals: []string{"gzip"}},
 	{ID: "bad-name", Key: "X Bad", Vals: []string{"v"}, Invalid: true},
 	{ID: "bad-value", Key: "X-Bad", Vals: []string{"a\nb"}, Invalid: true},
-	// (appended, so that the indices recorded in older replay files keep their meaning)
-	// Content-Length set in http.Request.Header, over the spelling alphabet c19CLSpellings
+	// + "Content-Length" in http.Request.Header over the spelling alphabet c19CLSpellings (appended
+	// by init below, so that the indices recorded in older replay files keep their meaning)
 }
 
 var c19RspHdrAtoms = []c19HdrAtom{
@@ -87,8 +96,7 @@ var c19RspHdrAtoms = []c19HdrAtom{
 	// a handler-set Content-Length is a message net/http accepts whatever its value: the writer may
 	// keep a well-formed value and may drop a malformed one, but must not emit what its own parser rejects
 	{ID: "content-length-malformed", Key: "Content-Length", Vals: []string{"abc"}},
-	// (appended, so that the indices recorded in older replay files keep their meaning)
-	// handler-set Content-Length over the spelling alphabet c19CLSpellings
+	// + handler-set Content-Length over the spelling alphabet c19CLSpellings (appended by init below)
 }
 
 // The Content-Length spelling alphabet (besides "5" / "99" and "abc" above): the boundaries of
@@ -230,6 +238,21 @@ func c19DecodeAll(block []byte) []c19Field {
 		}
 		fs = append(fs, c19Field{hf.Name, hf.Value})
 	}
+}
+
+// c19Shown renders an emitted section for a message: the writers serialise their header maps in
+// map order, so the regular fields are shown sorted by name (values of one name keep their order)
+// to keep the text of a witness the same from run to run.
+func c19Shown(fs []c19Field) []string {
+	fs = append([]c19Field(nil), fs...)
+	sort.SliceStable(fs, func(i, j int) bool {
+		pi, pj := strings.HasPrefix(fs[i].N, ":"), strings.HasPrefix(fs[j].N, ":")
+		if pi || pj {
+			return pi && !pj
+		}
+		return fs[i].N < fs[j].N
+	})
+	return c19Human(fs, false)
 }
 
 // c19ReadHeadersFrame reads one HEADERS frame with the real frame parser.
@@ -447,19 +470,19 @@ func c19RunReqMsg(m c19ReqMsg) (outcome string, fail *explore.Fail) {
 		emitted := c19DecodeAll(block)
 		if cl := c19EmitClause(c19Req, emitted); cl != "" {
 			return "", explore.Failf("writer-request/emits-malformed:"+cl,
-				"the request writer emits a field section that violates %v and its own parser rejects it (%v); emitted %v", c19JudgeAll(c19Req, emitted), err, c19Human(emitted, false))
+				"the request writer emits a field section that violates %v and its own parser rejects it (%v); emitted %v", c19JudgeAll(c19Req, emitted), err, c19Shown(emitted))
 		}
 		return "", explore.Failf("writer-request/output-rejected:"+c19ShortErr(err),
-			"the parser rejects what the request writer emitted for a valid message: %v; emitted %v", err, c19Human(emitted, false))
+			"the parser rejects what the request writer emitted for a valid message: %v; emitted %v", err, c19Shown(emitted))
 	}
 	if cl := c19EmitClause(c19Req, c19DecodeAll(block)); cl != "" {
 		// (accepted => well-formed) and (emitted => accepted) leave no room for this
 		return "", explore.Failf("writer-request/emits-malformed-accepted:"+cl,
-			"the request writer emits a field section that violates %v and the parser accepts it; emitted %v", c19JudgeAll(c19Req, c19DecodeAll(block)), c19Human(c19DecodeAll(block), false))
+			"the request writer emits a field section that violates %v and the parser accepts it; emitted %v", c19JudgeAll(c19Req, c19DecodeAll(block)), c19Shown(c19DecodeAll(block)))
 	}
 	if g, w := c19RenderRequest(got), c19ModelRequest(c19ViewOf(want)); g != w {
 		return "", explore.Failf("writer-request/fields-differ:"+c19DiffTag(g, w),
-			"parse(write(request)) differs from the message\n   got  %s\n   want %s\n   emitted %v", c19Trunc(g), c19Trunc(w), c19Human(c19DecodeAll(block), false))
+			"parse(write(request)) differs from the message\n   got  %s\n   want %s\n   emitted %v", c19Trunc(g), c19Trunc(w), c19Shown(c19DecodeAll(block)))
 	}
 	hdr, err := parseHeaders(qpack.NewDecoder().Decode(block), true, c19WriterLimit, nil)
 	explore.Must(err == nil, "parseHeaders rejects what requestFromHeaders accepted: %v", err)
@@ -501,7 +524,7 @@ func c19RunReqMsg(m c19ReqMsg) (outcome string, fail *explore.Fail) {
 			if cl := c19EmitClause(c19Trl, emitted); cl != "" {
 				key = "emits-malformed:" + cl
 			}
-			return "", explore.Failf("writer-request-trailers/"+key, "the parser rejects the trailer section the request writer emitted: %v; emitted %v", err, c19Human(emitted, false))
+			return "", explore.Failf("writer-request-trailers/"+key, "the parser rejects the trailer section the request writer emitted: %v; emitted %v", err, c19Shown(emitted))
 		}
 		if g, w := c19RenderHeader(gotT), c19RenderHeader(wantT); g != w {
 			return "", explore.Failf("writer-request-trailers/fields-differ", "parse(write(trailers)) = %s, the request has %s", g, w)
@@ -752,7 +775,7 @@ func c19RunRspMsg(m c19RspMsg) (outcome string, fail *explore.Fail) {
 			case *headersFrame:
 				b := make([]byte, f.Length)
 				io.ReadFull(r, b)
-				out = append(out, "HEADERS "+c19Trunc(fmt.Sprint(c19Human(c19DecodeAll(b), false))))
+				out = append(out, "HEADERS "+c19Trunc(fmt.Sprint(c19Shown(c19DecodeAll(b)))))
 			case *dataFrame:
 				b := make([]byte, f.Length)
 				io.ReadFull(r, b)
@@ -927,10 +950,10 @@ func c19LatticePart[M any](name, rule string, lattice func(e explore.Env) []M, r
 func c19WriterParts() []explore.Part {
 	return []explore.Part{
 		c19LatticePart("writer-request",
-			"full product of method x proto x URL form x Host override x header-atom sets (<=1 atom quick, <=2 thorough) x compression x body/ContentLength x Trailer; each message written by the real requestWriter through RequestStream.sendRequestHeader/sendRequestTrailer and parsed back by frameParser + qpack decoder + requestFromHeaders/decodeTrailers",
+			"full product of method x proto x URL form x Host override x header-atom sets (<=1 atom quick, <=2 thorough; 39 atoms, 17 of them Header[Content-Length] spellings) x compression x body/ContentLength x Trailer; each message written by the real requestWriter through RequestStream.sendRequestHeader/sendRequestTrailer and parsed back by frameParser + qpack decoder + requestFromHeaders/decodeTrailers",
 			c19ReqLattice, c19RunReqMsg, c19ReqMsg.human),
 		c19LatticePart("writer-response",
-			"full product of status x early hints x HEAD x header-atom sets (<=2 atoms quick, <=3 thorough) x Date x body x trailer style; each handler script run on the real responseWriter and read back by the real RequestStream.ReadResponse + body Read (-> decodeTrailers)",
+			"full product of status x early hints x HEAD x header-atom sets (<=2 atoms quick, <=3 thorough; 32 atoms, 18 of them handler-set Content-Length spellings) x Date x body length 0/5/10 x trailer style; each handler script run on the real responseWriter and read back by the real RequestStream.ReadResponse + body Read (-> decodeTrailers)",
 			c19RspLattice, c19RunRspMsg, c19RspMsg.human),
 	}
 }
